@@ -11,8 +11,8 @@ if os.path.exists(rp):
     res = json.load(open(rp))
 for (pid, k), (what, needs) in sorted(NEEDS.items()):
     # round 1: m1/m2 from the first staging area; round 2 (m3/m4) = m1/m2 of the second staging area
-    src = os.path.join(STAGE if k <= 2 else STAGE + '2', pid)
-    sk = k if k <= 2 else k - 2
+    src = os.path.join(STAGE if k <= 2 else (STAGE + '2' if k <= 4 else STAGE + '3'), pid)
+    sk = ((k - 1) % 2) + 1
     if not os.path.isdir(src):
         continue  # staging area gone (fresh session): keep what is already assembled
     d = os.path.join(OUT, '%s-m%d' % (pid, k))
@@ -28,7 +28,7 @@ for (pid, k), (what, needs) in sorted(NEEDS.items()):
     mpi = 'mpi' in open(os.path.join(src, demo)).read().lower()
     meta = {
         "property": pid,
-        "origin": "independent sub-agent given only the property record and a scratch worktree of /repo (no access to /verif)" + ("" if k <= 2 else "; round 2: additionally told the round-1 changes and the reverted fixes and asked for different mechanisms"),
+        "origin": "independent sub-agent given only the property record and a scratch worktree of /repo (no access to /verif)" + ("" if k <= 2 else ("; round 2: additionally told the round-1 changes and the reverted fixes and asked for different mechanisms" if k <= 4 else "; round 3: told rounds 1 and 2, pointed at less obvious files and at changes that need two cooperating sites")),
         "change": what,
         "needs_to_manifest": needs,
         "confirmed_by_me": confirmed,
